@@ -44,6 +44,7 @@ LAYERS = ["QDense", "QConv1D", "QConv2D", "QDepthwiseConv2D", "QSeparableConv1D"
 
 def bound(tier):
   return {"history_depth": 2, "operations": OPS, "layers": LAYERS,
+          "pair_variants": "one mode flag x one other non-default option, on QActivation (activation classes) and QDense (weight classes)",
           "variants": "deviation<=1 slice of the C09 lattice per quantizer class; thorough: every variant on every "
                       "(layer, slot) with all 12 histories; quick: see enumerate_cases"}
 
@@ -68,9 +69,35 @@ def _variants(classes):
   return out
 
 
+FLAGS = ("symmetric", "keep_negative", "use_ste", "use_variables", "use_real_sigmoid", "use_01", "use_sigmoid",
+         "is_quantized_clip", "use_real_tanh", "quadratic_approximation")
+
+
+def _pair_variants(classes):
+  """Two-option variants: one mode flag switched together with one other non-default option (a value that is only read -
+  and therefore only has to survive a round trip - in the switched mode: relu_upper_bound under an unquantized clip)."""
+  out = []
+  for qc in classes:
+    singles = [o for c, o in _variants([qc]) if o]
+    flags = [o for o in singles if list(o)[0] in FLAGS]
+    # around the default constructor and, for the activation classes, around the second base points of the C09 lattice
+    # (a clip bound is invisible inside the default range [0, 1): quantized_relu(4, 2) makes it observable)
+    bases = [{}] + (c09.BASES.get(qc, []) if qc in A_CLASSES and qc not in W_CLASSES else [])
+    for base in bases:
+      for f in flags:
+        for o in singles:
+          if (list(o)[0] not in FLAGS or list(o)[0] > list(f)[0]) and not (set(o) | set(f)) & set(base):
+            out.append((qc, dict(base, **f, **o)))
+  return out
+
+
 def enumerate_cases(tier, seed):
   out = []
   wv, av = _variants(W_CLASSES), _variants(A_CLASSES)
+  # two-option variants on the cheapest host layers, depth-1 histories (quick) / all histories (thorough)
+  for layer, slot, vs in (("QActivation", "activation", _pair_variants(A_CLASSES)), ("QDense", "weight", _pair_variants(W_CLASSES))):
+    for qc, opts in vs:
+      out.append(dict(layer=layer, slot=slot, qcls=qc, opts=opts, deep="all" if tier == "thorough" else "none", pair=True, _seed=seed))
   for layer in LAYERS:
     slots = []
     if layer not in ("QActivation", "QAveragePooling2D", "QGlobalAveragePooling2D"):
